@@ -1,6 +1,8 @@
 import Proofs.ConfModel
 import Proofs.Polar
 import Proofs.SigmaForm
+import Proofs.GaLog
+import Proofs.GaExpModel
 
 /-! # C13 — rotor recovery in g3c: the algebraic core
 
@@ -104,5 +106,35 @@ end G3c
 /-- non-vacuity: the constraints on the parameters are satisfiable with `t ≠ 0` (`s = 5/4`, `t = 9/16`, `n = 1`, `μ = 9/2`, `κ = √2/3`
     is irrational, so the instance below uses `s = 17/8`, `t = 225/64`, `n = 1`: `μ = 2·(25/8)·1 = 25/4`, `κ = 2/5`) -/
 example : ((1 : ℚ) * 1 = (17/8) * (17/8) - 225/64) ∧ ((2/5 : ℚ) * (2/5) * (2 * (17/8 + 1) * (1 * 1)) = 1) := by norm_num
+
+/-! ### `ga_log` undoes `ga_exp` (rotation–translation rotors of g3c) -/
+section GaLogSec
+open Ship Quat GaExp
+
+variable {A : Type} [Ring A] [Algebra ℚ A] {e : Fin 5 → A} {sig : Fin 5 → ℚ}
+
+/-- **`ga_log(ga_exp(B)) = B`, algebraic skeleton (partial)**: for every rotation–translation bivector of g3c
+    (`B = φP + (tn + tp)·ninf`, unit axis, `P = a·e123`, `ep = e4`), feeding the grade parts of the closed form
+    `R = (c + sP)(1 + tn ninf) + σ tp ninf` — `R₂ = sP + c·tn ninf + σ·tp ninf`, `R₄ = s·P tn ninf`, and `⟨phiP R₂⟩₂ = φσ·P tp ninf` —
+    into the formulas of `extractRotorComponents` (`phiP = ((R₂ ninf)|ep)/sinc`, `t_normal_n = −phiP R₄/(φ² sinc)`,
+    `t_perpendicular_n = −phiP⟨phiP R₂⟩₂/(φ² sinc)`) returns `B`, whenever `φ ≠ 0`, `σ ≠ 0`, `s = σφ` (`sin φ = sinc φ · φ`).
+    PARTIAL: that those three elements are the grade parts the code reads with `R(2)`, `R(4)`, `(…)(2)` (`P tn ninf` is a 4-vector,
+    `P tp ninf` a bivector) and that `arccos(R[()])` returns `φ` are evaluated on the implementation, not proved. -/
+theorem ga_log_inverts_ga_exp_partial (G : Gens e sig) (h0 : sig 0 = 1) (h1 : sig 1 = 1) (h2 : sig 2 = 1) (h3 : sig 3 = 1) (h4 : sig 4 = -1)
+    (a1 a2 a3 t1 t2 t3 φ c s σ : ℚ) (ha : a1 ^ 2 + a2 ^ 2 + a3 ^ 2 = 1) (hφ : φ ≠ 0) (hσ : σ ≠ 0) (hs : s = σ * φ) :
+    let P := Pl e a1 a2 a3; let n := ninf e; let tn := tnor e a1 a2 a3 t1 t2 t3; let tp := tpar e a1 a2 a3 t1 t2 t3
+    (1 / σ) • ((1/2 : ℚ) • (((s • P + c • (tn * n) + σ • (tp * n)) * n) * e 3 + e 3 * ((s • P + c • (tn * n) + σ • (tp * n)) * n)))
+      + (-(1 / (φ ^ 2 * σ))) • ((φ • P) * (s • (P * (tn * n))))
+      + (-(1 / (φ ^ 2 * σ))) • ((φ • P) * ((φ * σ) • (P * (tp * n))))
+      = φ • P + vec3 e t1 t2 t3 * n := by
+  intro P n tn tp
+  have ht : vec3 e t1 t2 t3 = tn + tp := by simp only [tn, tp, tpar]; abel
+  rw [ht]
+  exact GaLog.log_of_closed_form P n tn tp (e 3) φ c s σ (Pl_sq G h0 h1 h2 h3 h4 a1 a2 a3 ha) (ninf_sq G h0 h1 h2 h3 h4 a1 a2 a3 ha)
+    (Pl_ninf G h0 h1 h2 h3 h4 a1 a2 a3 ha) (tnor_ninf G h0 h1 h2 h3 h4 a1 a2 a3 t1 t2 t3 ha) (tpar_ninf G h0 h1 h2 h3 h4 a1 a2 a3 t1 t2 t3 ha)
+    (Pl_tnor G h0 h1 h2 h3 h4 a1 a2 a3 t1 t2 t3 ha) (Pl_tpar G h0 h1 h2 h3 h4 a1 a2 a3 t1 t2 t3 ha)
+    (Pl_ep G h0 h1 h2 h3 h4 a1 a2 a3 ha) (ninf_ep G h0 h1 h2 h3 h4 a1 a2 a3 ha) hφ hσ hs
+
+end GaLogSec
 
 end C13
